@@ -1103,6 +1103,22 @@ def o_c20(recs):
                 continue
             sec, key = args[0].split(b".")
             val = args[1]
+            # whatever the arguments: a `config` that is ACCEPTED never leaves a file no command can load
+            # (F51: an empty section name or a line break in an argument did), and one that must be refused
+            # (empty section, line break) changes nothing
+            hostile = sec == b"" or b"\n" in args[0] or b"\n" in val
+            if r.res.cls == "ok":
+                after_any = parse_cfg_file(a.gcfg if glob else a.lcfg)
+                if after_any in (None, "bad"):
+                    bad.append((i, "config exited 0 and left %s config file unreadable" % ("the global" if glob else "the local")))
+                    continue
+                if hostile:
+                    bad.append((i, "config with an empty section name or a line break in an argument was accepted"))
+                    continue
+            elif hostile:
+                if not unchanged(b, a):
+                    bad.append((i, "refused config changed %s" % what_changed(b, a)))
+                continue
             printable = all(c >= 0x20 and c != 0x7f for c in val) and val == val.strip() and b"  " not in val \
                 and val != b"" and all(c > 0x20 and c not in b"=[]" for c in sec + key) and sec and key
             if not printable:
